@@ -360,6 +360,15 @@ pub trait Entry {
 #[derive(Clone, Debug)]
 pub struct TreeEntry {
     entry: DirEntry,
+    // The number of components at the end of the root path of the traversal that belong to the
+    // relative path segment (the invariant prefix of a glob). See `Glob::walk`.
+    pivot: usize,
+}
+
+impl TreeEntry {
+    fn depth_from_pivot(&self) -> usize {
+        self.entry.depth()
+    }
 }
 
 impl Entry for TreeEntry {
@@ -384,7 +393,10 @@ impl Entry for TreeEntry {
     }
 
     fn depth(&self) -> usize {
-        self.entry.depth()
+        self.entry
+            .depth()
+            .checked_add(self.pivot)
+            .expect("overflow determining depth")
     }
 }
 
@@ -412,6 +424,7 @@ impl Entry for TreeEntry {
 #[derive(Debug)]
 pub struct WalkTree {
     is_dir: bool,
+    pivot: usize,
     input: walkdir::IntoIter,
 }
 
@@ -442,6 +455,7 @@ impl WalkTree {
         };
         WalkTree {
             is_dir: false,
+            pivot,
             input: builder.into_iter(),
         }
     }
@@ -464,7 +478,13 @@ impl Iterator for WalkTree {
     fn next(&mut self) -> Option<Self::Item> {
         let (is_dir, next) = match self.input.next() {
             Some(result) => match result {
-                Ok(entry) => (entry.file_type().is_dir(), Some(Ok(TreeEntry { entry }))),
+                Ok(entry) => (
+                    entry.file_type().is_dir(),
+                    Some(Ok(TreeEntry {
+                        entry,
+                        pivot: self.pivot,
+                    })),
+                ),
                 Err(error) => (false, Some(Err(error.into()))),
             },
             _ => (false, None),
